@@ -764,3 +764,58 @@ pub fn p5_full() -> ProgSpace {
         }),
     }
 }
+
+// ---------------------------------------------------------------------
+// GC space: every GC-candidate operator over inner expressions that allocate
+pub fn gc_candidates() -> Vec<u8> {
+    vec![2, 7, 9, 10, 11, 13, 16, 17, 18, 19, 20, 21, 22, 23, 24, 25, 26, 27, 29, 30, 32, 33, 34, 48, 49, 50, 51, 56, 58, 59, 60, 61, 62, 63]
+}
+pub fn gc_env() -> T {
+    // (BIG600 SMALL BIG2000 . "tail")
+    crate::tree::list_t(&[atom(&big_atom(600)), atom(&[0x07]), atom(&big_atom(2000))], atom(b"tail"))
+}
+pub fn gc_inner() -> Vec<T> {
+    [
+        "(concat 2 2)",                       // 1200 new bytes
+        "(substr 2 (q . 1) (q . 40))",        // view into the environment
+        "(substr (concat 2 2) (q . 3) (q . 30))", // view into new bytes
+        "(sha256 2)",                         // 32 new bytes
+        "(c 2 (concat 2 2))",                 // pair + garbage
+        "(q . 1)",
+        "5",
+        "(concat 2 (q . 1))",                 // 601 bytes
+        "(strlen (concat 2 2 2))",            // garbage then small
+        "(concat)",
+        "(concat 11 (q . 0x00))",             // 2001 bytes
+        "(pubkey_for_exp (strlen (concat 2 2)))",
+    ]
+    .iter()
+    .map(|s| parse_prog(s))
+    .collect()
+}
+pub fn p_gc() -> ProgSpace {
+    let outer = gc_candidates();
+    let inner: Vec<Vec<u8>> = gc_inner().iter().map(|t| t.ser()).collect();
+    let k = inner.len() as u64;
+    let per = k + k * k;
+    // opcode 2 (apply) gets its own shapes: (a (q . INNER) 1) and (a (q . (c INNER INNER)) 1)
+    let total = outer.len() as u64 * per;
+    ProgSpace {
+        name: format!("GC({} candidate operators x {} inner expressions, arity 1-2)", outer.len(), inner.len()),
+        total,
+        get: Box::new(move |i| {
+            let op = outer[(i / per) as usize];
+            let r = i % per;
+            let get = |j: u64| tree::deser(&inner[j as usize]).unwrap().0;
+            let args: Vec<T> = if r < k { vec![get(r)] } else { vec![get((r - k) / k), get((r - k) % k)] };
+            let p = if op == 2 {
+                // (a (q . X) 1) where X evaluates the inner expressions and returns the last / a pair
+                let body = if args.len() == 1 { args[0].clone() } else { list(&[atom(&[4]), args[0].clone(), args[1].clone()]) };
+                list(&[atom(&[2]), quote(body), atom(&[1])])
+            } else {
+                cons(atom(&[op]), list(&args))
+            };
+            (p, gc_env())
+        }),
+    }
+}
